@@ -20,16 +20,23 @@ package ripemd160
 
 //@ func _Block
 //@ props C14
-//@ trusted
-//@ note RIPEMD-160 compression over the full blocks of p: not verified; assumed to change only md.s, to return the number of bytes consumed and (ghost) to append them to fed(md)
+//@ note RIPEMD-160 compression over the full blocks of p: the round function is not interpreted; checked here: it consumes exactly the whole blocks, returns their byte count, indexes its tables and the message schedule in range and changes only md.s. By definition of the ghost stream the consumed bytes are appended to fed(md).
+//@ assume_global forall(i, 0, 80, _n[i] < 16 && n_[i] < 16)
 //@ nonnil md
 //@ modifies md.s
 //@ modifies ghost(md, flen)
 //@ modifies ghost(md, fbuf)
 //@ ensures result == len(p) - len(p) % 64
-//@ ensures ghost(md, flen) == old(ghost(md, flen)) + result
-//@ ensures forall(q, old(ghost(md, flen)), old(ghost(md, flen)) + result, ghost(md, fbuf)[q] == p[q - old(ghost(md, flen))])
-//@ ensures forall(q, 0, old(ghost(md, flen)), ghost(md, fbuf)[q] == old(ghost(md, fbuf)[q]))
+//@ assumed_ensures ghost(md, flen) == old(ghost(md, flen)) + result
+//@ assumed_ensures forall(q, old(ghost(md, flen)), old(ghost(md, flen)) + result, ghost(md, fbuf)[q] == p[q - old(ghost(md, flen))])
+//@ assumed_ensures forall(q, 0, old(ghost(md, flen)), ghost(md, fbuf)[q] == old(ghost(md, fbuf)[q]))
+//@ loop 1 invariant n == len(entry(p)) - len(p) && n % 64 == 0 && 0 <= n
+//@ loop 1 invariant off(p) + len(p) == off(entry(p)) + len(entry(p))
+//@ loop 3 invariant 0 <= i && i <= 16
+//@ loop 4 invariant 16 <= i && i <= 32
+//@ loop 5 invariant 32 <= i && i <= 48
+//@ loop 6 invariant 48 <= i && i <= 64
+//@ loop 7 invariant 64 <= i && i <= 80
 
 //@ func (*digest).Write
 //@ props C14
